@@ -93,6 +93,7 @@ type ObResult struct {
 	Wall          time.Duration
 	Samples       []Sample
 	PanicPaths    int
+	PathModels    []map[string]*big.Int
 	VarW          map[string]int
 	Exhausted     bool // path/time budget hit
 	Functions     map[string]bool
@@ -109,6 +110,7 @@ type World struct {
 	loadTime  time.Duration
 	varMu     sync.Mutex
 	varWidths map[string]map[string]int
+	funcIDs   map[*ssa.Function]int
 }
 
 type Session struct {
@@ -494,6 +496,12 @@ func (w *World) runObligation(ob *Obligation, debug bool) *ObResult {
 		switch end.kind {
 		case "done":
 			r.PathsDone++
+			// keep solver models of completed paths as validation vectors
+			if ob.Validate > 0 && len(r.PathModels) < 4*ob.Validate && len(in.vars) > 0 {
+				if sol.Check(in.pc, nil) == Sat {
+					r.PathModels = append(r.PathModels, sol.Model(in.vars))
+				}
+			}
 		case "panic":
 			r.PanicPaths++
 			if !ob.NoPanicCheck {
